@@ -103,27 +103,6 @@ theorem update_table_touches_only (u : Update) (ps : Env) (t : List SRow) (gc gk
     simp [h, h1, h2]
   · simp [h]
 
-/-- Every regenerated UPDATE on `documents` pins both `collection` (to the Go expression `c.id`) and `key` (to `key`). -/
-theorem updates_pin_collection_and_key :
-    ∀ u ∈ [Collection_DeleteSubDocPaths_UPDATE_0, Collection_DeleteWithXattrs_UPDATE_0, Collection_GetAndTouchRaw_UPDATE_0,
-           Collection_WriteCas_UPDATE_0, Collection_WriteCas_UPDATE_1, Collection__set_UPDATE_0, Collection_remove_UPDATE_0],
-      u.cond.pins .collection "c.id" = true ∧ u.cond.pins .key "key" = true := by
-  decide
-
-/-- Every regenerated INSERT gives `collection` the value of `c.id` and `key` the key of the call; none writes `collection`
-or `key` in its conflict arm. -/
-theorem upserts_address_collection_and_key :
-    (∀ i ∈ [Collection_WriteCas_INSERT_0, Collection__set_INSERT_0, Collection_add_INSERT_0],
-        (match i.valueOf .collection, i.valueOf .key with
-          | some (.par "c.id"), some (.par "key") => true | _, _ => false) = true) ∧
-    ((match Collection_storeDocument_INSERT_0.valueOf .collection, Collection_storeDocument_INSERT_0.valueOf .key with
-          | some (.par "c.id"), some (.par "e.key") => true | _, _ => false) = true) ∧
-    (∀ i ∈ [Collection_WriteCas_INSERT_0, Collection__set_INSERT_0, Collection_add_INSERT_0, Collection_storeDocument_INSERT_0],
-        (match i.conflict with
-          | some (sets, _) => sets.all (fun p => p.1 != .collection && p.1 != .key)
-          | none => true) = true) := by
-  decide
-
 /-- "Whenever the row function writes a row, `P` holds of that row and of the event; it never succeeds without writing one." -/
 def Writes (res : Out ⊕ (Option Row × Option Event × Out)) (P : Row → Option Event → Prop) : Prop :=
   match res with
